@@ -193,6 +193,16 @@ fn desc(p: &Project) -> VbaProjectDesc {
                     };
                     source[0] = hi;
                 }
+                if m.flags & 64 != 0 && p.codepage != 932 && source.len() >= 3 {
+                    // module text that begins with the bytes of a byte-order mark (a file saved as
+                    // UTF-8 with BOM and imported: "ï»¿" in 1252; FF FE is "ÿþ" / "яю"): code-page
+                    // text all the same
+                    if m.flags & 128 != 0 && p.codepage == 1252 {
+                        source[..3].copy_from_slice(&[0xEF, 0xBB, 0xBF]);
+                    } else {
+                        source[..2].copy_from_slice(&[0xFF, 0xFE]);
+                    }
+                }
                 if m.flags & 32 != 0 && p.codepage != 1251 {
                     // content that happens to be valid UTF-8 although it is code-page text: the bytes
                     // C2 A9 are "Â©" in code page 1252, C3 BD two half-width katakana in 932
